@@ -7,6 +7,7 @@ import (
 	"strings"
 
 	"verifsim/choice"
+	"verifsim/simrt"
 )
 
 // Violation is what a check reports; Sig identifies the specific failing thing (not the
@@ -130,7 +131,7 @@ func worldShape(w *World, r *Result) string {
 
 var envNoise = [][2]string{{"LANG", "de_DE.UTF-8"}, {"LC_ALL", "C"}, {"TZ", "Asia/Tokyo"}, {"NO_COLOR", "1"}, {"TERM", "dumb"}, {"TERM", "xterm-256color"},
 	{"USER", "someone"}, {"COLUMNS", "132"}, {"LINES", "50"}, {"GOPATH", "/nonexistent/gopath"}, {"GOFLAGS", "-mod=mod -trimpath"},
-	{"EDITOR", "vi"}, {"CI", "true"}, {"DEBUG", "1"}, {"GONTAINER_DEBUG", "1"}, {"FORCE_COLOR", "1"}, {"CLICOLOR_FORCE", "1"}, {"HOME", "/nonexistent/home"}}
+	{"EDITOR", "vi"}, {"GOMAXPROCS", "1"}, {"GOMAXPROCS", "3"}, {"GODEBUG", "randautoseed=0"}, {"CI", "true"}, {"DEBUG", "1"}, {"GONTAINER_DEBUG", "1"}, {"FORCE_COLOR", "1"}, {"CLICOLOR_FORCE", "1"}, {"HOME", "/nonexistent/home"}}
 
 // twinsC08 builds the perturbed siblings of w. Each differs from w only in dimensions the
 // property declares irrelevant. envReads are the variables the base run was seen reading.
@@ -199,7 +200,24 @@ func genC08World(src *choice.Src, keySeed uint64) *World {
 	if src.Chance("swarm.nolayout", 1, 2) {
 		o.LayoutFault = false
 	}
-	return genWorldKeyed(src, o, keySeed)
+	o.Big = src.Chance("swarm.big", 1, 6)
+	o.AbsPatterns = src.Chance("swarm.abs", 1, 6)
+	w := genWorldKeyed(src, o, keySeed)
+	if src.Chance("swarm.fault", 1, 5) {
+		// the same fault in the base run and in every twin: a failing run's report must be as
+		// deterministic as a successful one. The fault is sprayed over all operation indices, so it
+		// fires on the first operation of its kind.
+		menu := []simrt.Fault{{OpKind: "create-temp", Kind: "EACCES"}, {OpKind: "create-temp", Kind: "ENOSPC"}, {OpKind: "open-w", Kind: "EACCES"},
+			{OpKind: "write", Kind: "ENOSPC", Arg: 7}, {OpKind: "close-w", Kind: "EIO"}, {OpKind: "rename", Kind: "EXDEV"}, {OpKind: "open-r", Kind: "EIO"}, {OpKind: "read", Kind: "EIO", Arg: 3}}
+		f := choice.Pick(src, "swarm.faultkind", menu)
+		for at := 0; at < 96; at++ {
+			g := f
+			g.At = at
+			w.Faults = append(w.Faults, g)
+		}
+		w.Class += "+fault:" + f.OpKind + ":" + f.Kind
+	}
+	return w
 }
 
 // CheckC08 generates one world, runs it with its twins and compares. st may be nil.
